@@ -397,7 +397,7 @@ type Clause struct {
 	Label string
 	Src   string
 	E     Expr
-	// Using (function ensures only): the labelled hypotheses - loop and
+	// Using (function ensures and loop invariants): the labelled hypotheses - loop and
 	// monitor invariants, earlier proved clauses, "unpublished", "frame" -
 	// that this clause's proof may use; the others are left out of its query.
 	// Leaving hypotheses out can only lose proofs.
@@ -585,6 +585,9 @@ func (cs *ContractSet) parseContractText(text, pkgPath, file string) error {
 			if kw == "ensures" && (curL != nil || curS != nil || curLem != nil) {
 				lastKW = "ensures-other"
 			}
+			if kw == "invariant" && (curL == nil || curMon != nil && curL == nil) {
+				lastKW = "invariant-other"
+			}
 		}
 		switch kw {
 		case "func", "extern":
@@ -639,10 +642,14 @@ func (cs *ContractSet) parseContractText(text, pkgPath, file string) error {
 			cs.Lemmas[l.Name] = l
 			curLem = l
 		case "using":
-			if curF == nil || len(curF.Ensures) == 0 || lastKW != "ensures" {
-				return fmt.Errorf("%s: using must follow an ensures clause of a function", file)
+			switch {
+			case lastKW == "invariant" && curL != nil && len(curL.Invariants) > 0:
+				curL.Invariants[len(curL.Invariants)-1].Using = append(curL.Invariants[len(curL.Invariants)-1].Using, splitComma(rest)...)
+			case lastKW == "ensures" && curF != nil && len(curF.Ensures) > 0:
+				curF.Ensures[len(curF.Ensures)-1].Using = append(curF.Ensures[len(curF.Ensures)-1].Using, splitComma(rest)...)
+			default:
+				return fmt.Errorf("%s: using must follow an ensures clause of a function or a loop invariant", file)
 			}
-			curF.Ensures[len(curF.Ensures)-1].Using = append(curF.Ensures[len(curF.Ensures)-1].Using, splitComma(rest)...)
 			continue
 		case "step":
 			if curL == nil {
